@@ -553,21 +553,9 @@ Qed.
 (* ================================================================== *)
 (* G. set_value                                                        *)
 
-Lemma mark_alloc_proj b id s :
-  m_topo (mark_alloc b id s) = m_topo s /\ m_attrs (mark_alloc b id s) = m_attrs s.
-Proof. unfold mark_alloc. destruct b; auto. Qed.
-Lemma get_attr_mark b id s j : get_attr (mark_alloc b id s) j = get_attr s j.
-Proof. unfold get_attr. now rewrite (proj2 (mark_alloc_proj b id s)). Qed.
-Lemma tgs_of_mark b id s j : tgs_of (mark_alloc b id s) j = tgs_of s j.
-Proof. unfold tgs_of. rewrite get_attr_mark. now rewrite (proj1 (mark_alloc_proj b id s)). Qed.
-Lemma Inv_mark b id s : Inv s -> Inv (mark_alloc b id s).
-Proof.
-  intros [W C L A]. destruct (mark_alloc_proj b id s) as [E1 E2]. constructor; rewrite ?E1, ?E2; assumption.
-Qed.
-
 Definition set_f (need : bool) (il : option iloc) (v : N) (g : imtg) : imtg :=
   match il with
-  | Some q => if need then Imtg (g_type g) (g_gp g) (g_os g) (upsert_init q v (g_inits g)) (g_val g)
+  | Some q => if need then Imtg (g_type g) (g_gp g) (g_os g) (upsert_init true q v (g_inits g)) (g_val g)
               else Imtg (g_type g) (g_gp g) (g_os g) (g_inits g) v
   | None => Imtg (g_type g) (g_gp g) (g_os g) (g_inits g) v
   end.
@@ -579,10 +567,10 @@ Proof. unfold set_f. destruct il, need; auto. Qed.
 Lemma set_core_unfold s id ty gp os il v a :
   get_attr s id = Some a -> (need_init a && match il with None => true | Some _ => false end) = false ->
   a_conv a = false ->
-  set_core true s id ty gp os il v =
+  set_core true true s id ty gp os il v =
   let a1 := cur (m_topo s) a in
   let r := upsert_tg ty gp os (set_f (need_init a) il v) (a_tgs a1) in
-  (mark_alloc (snd r) id (put_attr s id (Imattr (a_name a1) (a_flags a1) (a_conv a1) (if snd r then false else a_valid a1) (fst r))), Ok tt).
+  (put_attr s id (Imattr (a_name a1) (a_flags a1) (a_conv a1) (if snd r then false else a_valid a1) (fst r)), Ok tt).
 Proof.
   intros G N C. unfold set_core. rewrite G, N, C. cbn [andb]. cbn zeta.
   replace (if negb (a_valid a) then refresh_attr (m_topo s) a else a) with (cur (m_topo s) a)
@@ -648,11 +636,11 @@ Proof.
       destruct (p' g); [reflexivity|]. apply IH. intros g' Hg'. apply Hx. now right.
 Qed.
 
-Lemma upsert_init_nonempty q v is : upsert_init q v is <> [].
+Lemma upsert_init_nonempty nok q v is : upsert_init nok q v is <> [].
 Proof. destruct is as [|i r]; cbn [upsert_init]; [discriminate|]. destruct (match_iloc q (i_loc i)); discriminate. Qed.
 
-Lemma upsert_init_Forall t q v is :
-  loc_stable t q -> Forall (istable t) is -> Forall (istable t) (upsert_init q v is).
+Lemma upsert_init_Forall t nok q v is :
+  loc_stable t q -> Forall (istable t) is -> Forall (istable t) (upsert_init nok q v is).
 Proof.
   intros Hq H. induction H as [|i r Hi Hr IH]; cbn [upsert_init].
   - constructor; [exact Hq|constructor].
@@ -694,8 +682,8 @@ Definition set_args_ok (s : mstate) (id : N) (o : obj) (il : option iloc) : Prop
 
 Lemma set_core_props s id o il v :
   Inv s -> set_args_ok s id o il ->
-  let s' := fst (set_core true s id (o_type o) (o_gp o) (o_os o) il v) in
-  snd (set_core true s id (o_type o) (o_gp o) (o_os o) il v) = Ok tt /\
+  let s' := fst (set_core true true s id (o_type o) (o_gp o) (o_os o) il v) in
+  snd (set_core true true s id (o_type o) (o_gp o) (o_os o) il v) = Ok tt /\
   Inv s' /\ m_topo s' = m_topo s /\
   (forall id', id' <> id -> get_attr s' id' = get_attr s id') /\
   (forall a, get_attr s id = Some a -> exists a2, get_attr s' id = Some a2 /\ a_name a2 = a_name a /\
@@ -743,12 +731,12 @@ Proof.
   { unfold attr_ok. rewrite Nd2. unfold a2. cbn [a_tgs a_valid a_conv].
     split; [exact TG|]. split; [exact ND|]. split; [intros _; exact ST|].
     rewrite K6, C. discriminate. }
-  split; [reflexivity|]. split; [apply Inv_mark; apply (Inv_put s id a); auto; cbn [a_conv a2]; exact K6|].
-  split; [apply (mark_alloc_proj (snd r) id (put_attr s id a2))|]. split; [|split].
-  - intros id' Hid. rewrite get_attr_mark. unfold get_attr. cbn [put_attr m_attrs]. apply nth_set_other. congruence.
+  split; [reflexivity|]. split; [apply (Inv_put s id a); auto; cbn [a_conv a2]; exact K6|].
+  split; [reflexivity|]. split; [|split].
+  - intros id' Hid. unfold get_attr. cbn [put_attr m_attrs]. apply nth_set_other. congruence.
   - intros a' G'. rewrite G in G'. injection G' as <-. exists a2. split; [|unfold a2; cbn [a_name a_flags a_conv]; auto].
-    rewrite get_attr_mark. unfold get_attr in *. cbn [put_attr m_attrs]. apply (nth_set_same _ _ _ _ G).
-  - intros a' G'. rewrite G in G'. injection G' as <-. rewrite tgs_of_mark.
+    unfold get_attr in *. cbn [put_attr m_attrs]. apply (nth_set_same _ _ _ _ G).
+  - intros a' G'. rewrite G in G'. injection G' as <-.
     unfold tgs_of at 1. unfold get_attr in *. cbn [put_attr m_attrs m_topo].
     rewrite (nth_set_same _ _ _ _ G).
     unfold tgs_of, get_attr. rewrite G. fold a1. fold f. fold r.
@@ -765,7 +753,7 @@ Qed.
 Lemma match_iloc_refl q : match_iloc q q = true.
 Proof. destruct q; cbn [match_iloc]; [apply bs_subset_refl|now rewrite !N.eqb_refl]. Qed.
 
-Lemma upsert_init_find_same q v is : exists i, find_init (upsert_init q v is) q = Some i /\ i_val i = v.
+Lemma upsert_init_find_same nok q v is : exists i, find_init (upsert_init nok q v is) q = Some i /\ i_val i = v.
 Proof.
   unfold find_init. induction is as [|i r IH]; cbn [upsert_init find].
   - cbn [i_loc]. rewrite match_iloc_refl. eexists. split; reflexivity.
@@ -796,7 +784,7 @@ Definition public_il (l : option location) : option (option iloc) :=
 
 Lemma set_value_core s id o init v il :
   public_il init = Some il ->
-  set_value s id (Some o) init 0 v = set_core true s id (o_type o) (o_gp o) (o_os o) il v.
+  set_value s id (Some o) init 0 v = set_core true true s id (o_type o) (o_gp o) (o_os o) il v.
 Proof.
   unfold public_il, set_value. cbn [N.eqb negb]. destruct init as [l|].
   - destruct (to_internal l); intros H; [injection H as <-; reflexivity|discriminate].
@@ -825,7 +813,7 @@ Proof.
       unfold find_init_loc. destruct init as [l|]; [|discriminate P].
       unfold public_il in P. destruct (to_internal l) as [q'|]; [|discriminate P]. injection P as ->.
       cbn [g_inits].
-      destruct (upsert_init_find_same q v (g_inits g0)) as [i [-> <-]]. reflexivity.
+      destruct (upsert_init_find_same true q v (g_inits g0)) as [i [-> <-]]. reflexivity.
     + destruct il; reflexivity.
   - intros g. unfold tg_match. destruct (set_f_fields (need_init a) il v g) as [-> [-> ->]]. reflexivity.
   - unfold tg_match. destruct (set_f_fields (need_init a) il v (Imtg (o_type o) (o_gp o) (o_os o) [] 0)) as [-> [-> ->]].
@@ -895,9 +883,9 @@ Proof.
   rewrite bs_subset_spec in X, Y. exact (D i (X i Hi) (Y i Hi)).
 Qed.
 
-Lemma upsert_init_included c c' v is :
+Lemma upsert_init_included nok c c' v is :
   pd is -> compat is (ICpu c) -> bs_is_empty c' = false -> bs_subset c' c = true ->
-  exists i, find_init (upsert_init (ICpu c) v is) (ICpu c') = Some i /\ i_val i = v.
+  exists i, find_init (upsert_init nok (ICpu c) v is) (ICpu c') = Some i /\ i_val i = v.
 Proof.
   intros P C E S. unfold find_init. induction is as [|i r IH]; cbn [upsert_init find].
   - cbn [i_loc match_iloc]. rewrite S. eexists. split; reflexivity.
@@ -947,7 +935,7 @@ Proof.
   unfold get_in, find_target. rewrite upsert_find_same.
   - unfold find_target in Hpd. destruct (find _ (tgs_of s id)) as [g|] eqn:F.
     + destruct (Hpd g eq_refl) as [P1 P2]. unfold set_f. cbn [g_inits find_init_loc to_internal]. rewrite E.
-      destruct (upsert_init_included c c' v (g_inits g) P1 P2 E S) as [i [-> <-]]. reflexivity.
+      destruct (upsert_init_included true c c' v (g_inits g) P1 P2 E S) as [i [-> <-]]. reflexivity.
     + unfold set_f. cbn [g_inits find_init_loc to_internal upsert_init]. rewrite E.
       unfold find_init. cbn [find i_loc match_iloc]. rewrite S. reflexivity.
   - intros g. unfold tg_match. destruct (set_f_fields true (Some (ICpu c)) v g) as [-> [-> ->]]. reflexivity.
@@ -1124,7 +1112,7 @@ Lemma conv_attr_readonly s id a tgt init flags v :
 Proof.
   intros G C. unfold set_value. destruct tgt as [o|]; [|reflexivity].
   destruct (negb (flags =? 0)); [reflexivity|].
-  assert (X : forall il, set_core true s id (o_type o) (o_gp o) (o_os o) il v = (s, Err EINVAL)).
+  assert (X : forall il, set_core true true s id (o_type o) (o_gp o) (o_os o) il v = (s, Err EINVAL)).
   { intros il. unfold set_core. rewrite G, C. destruct (need_init a && _); reflexivity. }
   destruct init as [l|]; [|apply X]. destruct (to_internal l); [apply X|reflexivity].
 Qed.
@@ -1308,7 +1296,7 @@ Lemma set_value_cases s id o init flags v :
 Proof.
   intros I Ho Hl. unfold set_value. destruct (N.eqb_spec flags 0) as [->|]; [|now left]. cbn [negb].
   assert (X : forall il, il_stable (m_topo s) il ->
-     fst (set_core true s id (o_type o) (o_gp o) (o_os o) il v) = s \/ set_args_ok s id o il).
+     fst (set_core true true s id (o_type o) (o_gp o) (o_os o) il v) = s \/ set_args_ok s id o il).
   { intros il Sil. unfold set_core. destruct (get_attr s id) as [a|] eqn:G; [|now left].
     destruct (need_init a && _) eqn:N; [now left|]. destruct (a_conv a) eqn:C; [now left|].
     right. split; [assumption|]. split; [assumption|]. exists a. auto. }
@@ -1531,8 +1519,8 @@ Proof.
     apply Forall_app. split; [assumption|]. constructor; [assumption|constructor].
 Qed.
 
-Lemma upsert_init_locs q v is :
-  map i_loc (upsert_init q v is) = map i_loc is ++ (match find_init is q with Some _ => [] | None => [q] end).
+Lemma upsert_init_locs nok q v is :
+  map i_loc (upsert_init nok q v is) = map i_loc is ++ (match find_init is q with Some _ => [] | None => [q] end).
 Proof.
   unfold find_init. induction is as [|i r IH]; cbn [upsert_init map find app]; [reflexivity|].
   destruct (match_iloc q (i_loc i)); cbn [map i_loc].
@@ -1540,7 +1528,7 @@ Proof.
   - now rewrite IH.
 Qed.
 
-Lemma upsert_init_pd q v is : pd is -> compat is q -> pd (upsert_init q v is).
+Lemma upsert_init_pd nok q v is : pd is -> compat is q -> pd (upsert_init nok q v is).
 Proof.
   unfold pd. intros P C. apply FOP_map. rewrite upsert_init_locs. apply FOP_map in P.
   destruct (find_init is q) eqn:F; [now rewrite app_nil_r|].
@@ -1565,4 +1553,181 @@ Proof.
   apply refresh_imi_out in Fx, Fy. destruct Fx as [_ [_ [_ Lx]]], Fy as [_ [_ [_ Ly]]].
   destruct (i_loc x) as [cx|], (i_loc y) as [cy|]; rewrite Lx, Ly; cbn [loc_disjoint] in *; try exact Logic.I.
   intros i M1 M2. rewrite mem_inter in M1, M2. apply andb_true_iff in M1, M2. exact (R i (proj1 M1) (proj1 M2)).
+Qed.
+
+(* ================================================================== *)
+(* Q. cached object pointers are initialised in every public history   *)
+
+Definition tg_allok (g : imtg) : Prop := Forall (fun i => i_ok i = true) (g_inits g).
+Definition attr_allok (a : imattr) : Prop := Forall tg_allok (a_tgs a).
+Definition AllOk (s : mstate) : Prop := Forall attr_allok (m_attrs s).
+
+Lemma refresh_tg_allok t need g g' : tg_allok g -> refresh_tg t need g = Some g' -> tg_allok g'.
+Proof.
+  unfold refresh_tg. destruct (lookup_target t g); [|discriminate]. destruct need.
+  - destruct (filter_map (refresh_imi t) (g_inits g)) as [|i0 is] eqn:F; [discriminate|].
+    intros _ K. injection K as <-. unfold tg_allok. cbn [g_inits]. rewrite <- F.
+    apply Forall_forall. intros x Hx. apply in_filter_map in Hx. destruct Hx as [y [_ Hy]].
+    apply refresh_imi_out in Hy. tauto.
+  - intros H K. injection K as <-. exact H.
+Qed.
+
+Lemma cur_allok t a : attr_allok a -> attr_allok (cur t a).
+Proof.
+  intros H. unfold cur. destruct (a_valid a); [assumption|].
+  unfold attr_allok, refresh_attr. cbn [a_tgs]. apply Forall_forall. intros g Hg.
+  apply in_filter_map in Hg. destruct Hg as [g0 [H0 Hr]]. unfold attr_allok in H. rewrite Forall_forall in H.
+  exact (refresh_tg_allok _ _ _ _ (H g0 H0) Hr).
+Qed.
+
+Lemma upsert_init_allok q v is :
+  Forall (fun i => i_ok i = true) is -> Forall (fun i => i_ok i = true) (upsert_init true q v is).
+Proof.
+  intros H. induction H as [|i r Hi Hr IH]; cbn [upsert_init].
+  - constructor; [destruct q; reflexivity|constructor].
+  - destruct (match_iloc q (i_loc i)); constructor; auto.
+Qed.
+
+Lemma AllOk_put s id a : AllOk s -> attr_allok a -> AllOk (put_attr s id a).
+Proof.
+  intros H Ha. unfold AllOk in *. cbn [put_attr m_attrs]. apply Forall_forall. intros b Hb.
+  apply In_set_nthN in Hb. destruct Hb as [->|Hb]; [assumption|]. rewrite Forall_forall in H. auto.
+Qed.
+
+Lemma AllOk_get s id a : AllOk s -> get_attr s id = Some a -> attr_allok a.
+Proof. intros H G. apply nth_errN_In in G. unfold AllOk in H. rewrite Forall_forall in H. auto. Qed.
+
+Lemma set_core_allok loaded s id ty gp os il v : AllOk s -> AllOk (fst (set_core loaded true s id ty gp os il v)).
+Proof.
+  intros H. unfold set_core. destruct (get_attr s id) as [a|] eqn:G; [|exact H].
+  destruct (need_init a && _); [exact H|]. destruct (a_conv a); [exact H|].
+  set (a1 := if loaded && negb (a_valid a) then refresh_attr (m_topo s) a else a).
+  assert (A1 : attr_allok a1).
+  { unfold a1. destruct (loaded && negb (a_valid a)) eqn:E; [|exact (AllOk_get s id a H G)].
+    pose proof (cur_allok (m_topo s) a (AllOk_get s id a H G)) as K. unfold cur in K.
+    destruct (a_valid a); [destruct loaded; discriminate|exact K]. }
+  match goal with |- context [upsert_tg ty gp os ?ff (a_tgs a1)] => set (f := ff) end.
+  pose proof (upsert_tg_Forall tg_allok ty gp os f (a_tgs a1) A1) as U.
+  destruct (upsert_tg ty gp os f (a_tgs a1)) as [tgs created]. cbn [fst] in *.
+  apply AllOk_put; [assumption|]. unfold attr_allok. cbn [a_tgs]. apply U.
+  - intros g Hg. unfold f, tg_allok. destruct il as [q|]; [destruct (need_init a)|]; cbn [g_inits]; try exact Hg.
+    now apply upsert_init_allok.
+  - unfold f, tg_allok. destruct il as [q|]; [destruct (need_init a)|]; cbn [g_inits upsert_init]; repeat constructor.
+    destruct q; reflexivity.
+Qed.
+
+Lemma step_AllOk s o : AllOk s -> op_ok s o -> AllOk (fst (step s o)).
+Proof.
+  intros H K.
+  destruct (is_query o) eqn:Q.
+  { destruct (query_state s o Q) as [->|[id [a [G ->]]]]; [assumption|].
+    apply AllOk_put; [assumption|]. apply cur_allok. exact (AllOk_get s id a H G). }
+  destruct o; try discriminate Q; cbn [op_ok] in K; cbn [step].
+  - rewrite fst_let. unfold register. break_match; cbn [fst]; try assumption.
+    unfold AllOk in *. cbn [m_attrs]. apply Forall_app. split; [assumption|]. repeat constructor.
+  - rewrite fst_let. unfold set_value. break_match; cbn [fst]; try assumption; apply set_core_allok; assumption.
+  - destruct K.
+  - unfold AllOk in *. cbn [retopo m_attrs]. unfold need_refresh. apply Forall_forall. intros b Hb.
+    apply in_map_iff in Hb. destruct Hb as [a [<- Ha]]. rewrite Forall_forall in H. specialize (H a Ha).
+    destruct (a_conv a); exact H.
+  - unfold AllOk in *. cbn [dup_switch m_attrs]. apply Forall_forall. intros b Hb.
+    apply in_map_iff in Hb. destruct Hb as [a [<- Ha]]. rewrite Forall_forall in H. exact (H a Ha).
+  - destruct K.
+Qed.
+
+Lemma run_AllOk s ops : AllOk s -> hist_ok s ops -> AllOk (run s ops).
+Proof.
+  revert s. induction ops as [|o r IH]; intros s I H; [exact I|].
+  cbn [hist_ok] in H. destruct H as [H1 H2]. unfold run. cbn [fold_left]. apply IH; [now apply step_AllOk|assumption].
+Qed.
+
+Lemma init_state_AllOk t : AllOk (init_state t).
+Proof.
+  unfold AllOk. cbn [init_state m_attrs]. unfold refresh_all, need_refresh. rewrite map_map. apply Forall_forall.
+  intros b Hb. apply in_map_iff in Hb. destruct Hb as [a [<- Ha]].
+  assert (Ta : a_tgs a = []).
+  { unfold init_attrs in Ha. apply in_map_iff in Ha. destruct Ha as [[[n f] i] [<- _]]. reflexivity. }
+  apply cur_allok. unfold attr_allok. destruct (a_conv a); cbn [a_tgs]; rewrite Ta; constructor.
+Qed.
+
+Lemma tgs_of_allok s id : AllOk s -> Forall tg_allok (tgs_of s id).
+Proof.
+  intros H. unfold tgs_of. destruct (get_attr s id) as [a|] eqn:G; [|constructor].
+  exact (cur_allok _ _ (AllOk_get s id a H G)).
+Qed.
+
+Lemma In_firstnN {A} n (l : list A) x : In x (firstnN n l) -> In x l.
+Proof. destruct (firstnN_prefix l n) as [r E]. intros H. rewrite E. apply in_or_app. now left. Qed.
+
+(* hwloc_memattr_get_initiators enumerates exactly the stored entries *)
+Lemma get_initiators_exact s id a o max inull :
+  AllOk s -> get_attr s id = Some a -> need_init a = true -> (max = 0 \/ inull = false) ->
+  snd (get_initiators s id (Some o) 0 max inull) =
+  match find_target (tgs_of s id) (o_type o) (o_gp o) (o_os o) with
+  | None => Err EINVAL
+  | Some g => Ok (lenN (g_inits g), map (fun i => (i_loc i, i_val i)) (firstnN max (g_inits g)))
+  end.
+Proof.
+  intros H G Nd M. rewrite (get_initiators_snd s id a o max inull G Nd M).
+  destruct (find_target _ _ _ _) as [g|] eqn:F; [|reflexivity].
+  apply find_some in F. destruct F as [Hg _].
+  pose proof (tgs_of_allok s id H) as K. rewrite Forall_forall in K. specialize (K g Hg).
+  replace (forallb i_ok (firstnN max (g_inits g))) with true; [reflexivity|].
+  symmetry. apply forallb_forall. intros i Hi. apply In_firstnN in Hi.
+  unfold tg_allok in K. rewrite Forall_forall in K. auto.
+Qed.
+
+Lemma get_best_initiator_defined s id a o :
+  AllOk s -> get_attr s id = Some a -> need_init a = true ->
+  snd (get_best_initiator s id (Some o) 0) <> Err EUB.
+Proof.
+  intros H G Nd. rewrite (get_best_initiator_snd s id a o G Nd).
+  destruct (find_target _ _ _ _) as [g|] eqn:F; [|discriminate].
+  apply find_some in F. destruct F as [Hg _].
+  pose proof (tgs_of_allok s id H) as K. rewrite Forall_forall in K. specialize (K g Hg).
+  destruct (best_of _ _) as [[i v]|] eqn:B; [|discriminate].
+  apply best_of_some in B. destruct B as [B _]. apply in_map_iff in B. destruct B as [i1 [E1 H1]].
+  injection E1 as -> _. unfold tg_allok in K. rewrite Forall_forall in K. rewrite (K i H1). discriminate.
+Qed.
+
+(* ================================================================== *)
+(* R. default nodeset: the documented "already taken?" test            *)
+
+(* second loop as documented: skip a node that is already in the nodeset *)
+Definition dn_loop2_doc (st : dn_state) (e : N * obj) : dn_state :=
+  let (_, n) := e in
+  if dn_done st then st
+  else if mem (o_os n) (dn_set st) then st
+  else dn_check (if bs_subset (o_cpuset n) (dn_rem st) && negb (bs_is_empty (o_cpuset n))
+                 then dn_take st n else st).
+
+Definition default_nodeset_doc (s : mstate) (flags : N) : res bset :=
+  if negb (flags =? 0) then Err EINVAL
+  else match sort_by_os (numa_nodes (m_topo s)) with
+  | [] => Err EUB
+  | first :: rest =>
+    let st0 := dn_take (DN bs_empty (t_root (m_topo s)) false) first in
+    let st1 := fold_left (dn_loop1 (o_subtype first)) rest st0 in
+    let st2 := fold_left dn_loop2_doc (number_from 1 rest) st1 in
+    Ok (dn_set st2)
+  end.
+
+Lemma fold_left_ext_in {A S} (f g : S -> A -> S) l st :
+  (forall st x, In x l -> f st x = g st x) -> fold_left f l st = fold_left g l st.
+Proof.
+  revert st. induction l as [|x l IH]; intros st H; [reflexivity|].
+  cbn [fold_left]. rewrite (H st x (or_introl eq_refl)). apply IH. intros st' y Hy. apply H. now right.
+Qed.
+
+(* the code agrees with the documented algorithm when every NUMA node's
+   os_index is its position in the os_index-sorted array (0,1,2,...) *)
+Lemma default_nodeset_index_ok s flags :
+  (forall e, In e (number_from 0 (sort_by_os (numa_nodes (m_topo s)))) -> fst e = o_os (snd e)) ->
+  default_nodeset s flags = default_nodeset_doc s flags.
+Proof.
+  intros H. unfold default_nodeset, default_nodeset_doc. destruct (negb (flags =? 0)); [reflexivity|].
+  destruct (sort_by_os (numa_nodes (m_topo s))) as [|first rest]; [reflexivity|].
+  f_equal. f_equal. apply fold_left_ext_in. intros st [i n] Hin.
+  assert (E : i = o_os n) by (apply (H (i, n)); cbn [number_from]; right; exact Hin).
+  unfold dn_loop2, dn_loop2_doc. now rewrite E.
 Qed.
